@@ -773,11 +773,12 @@ Section Dec.
 
   Definition dec_body (sp: spec) (acc: tagset) (resume: option (option N)) (allow_eoo sfun: bool) : proc dval :=
     let main :=
-      Mark (
+      (* the mark (start of the element, from which an untagged ANY re-reads its header) is set when an
+         element is begun, not on re-entry past its header (untagged CHOICE) *)
       match resume with
       | Some len => dispatch sp acc len sfun
-      | None => let! t := read_tag in let! len := read_length in dispatch sp (t :: acc) len sfun
-      end) in
+      | None => Mark (let! t := read_tag in let! len := read_length in dispatch sp (t :: acc) len sfun)
+      end in
     if allow_eoo && support_indef c then
       let! b := readN 2 in
       match b with
